@@ -1037,7 +1037,7 @@ fn search_differential(seed: u64, budget: usize, want: Option<&str>) -> (usize, 
         // accepts is refused), precedence/taxonomy (both refuse, different kinds), pass-through (both accept, different returned request)
         let about: Vec<&str> = match (&real, &model) {
             (Ok(_), Err(k)) => vec![k.1],
-            (Err(_), Ok(_)) => vec!["C02"],
+            (Err(_), Ok(_)) => if folds_for_signer { vec!["C02", "C12"] } else { vec!["C02"] },
             (Err(_), Err(k)) => vec!["C13", k.1],
             (Ok(_), Ok((muri, _))) => if muri.is_some() { vec!["C15", "C12"] } else { vec!["C15"] },
         };
